@@ -79,6 +79,17 @@ func c11Grammar(reps bool) *gen.Grammar {
 	return gen.NewGrammar(rules)
 }
 
+// c11CallsGrammar: several calls with several arguments in one expression, nested in every argument position.
+func c11CallsGrammar() *gen.Grammar {
+	E := gen.TAny
+	rules := []*gen.Rule{gen.Lit("a", E, nil), gen.Lit("1", E, nil),
+		gen.Call("f", E, E), gen.Call("f", E, E, E), gen.Call("g", E, E, E, E), gen.Call("h", E),
+		gen.Method(E, "m", E, false, E, E), gen.Bin("+", E, E, E),
+		&gen.Rule{Op: "arr", Out: E, Atom: true, In: []gen.Slot{{T: E, Closure: -1}, {T: E, Closure: -1}}, Fmt: "[%s, %s]"},
+	}
+	return gen.NewGrammar(rules)
+}
+
 // c11PunctGrammar: string literals that spell punctuation tokens, in every position where the parser probes for that token.
 var c11PunctLits = []string{`":"`, `"]"`, `"#"`, `")"`, `"}"`, `","`, `"?"`, `"."`}
 
@@ -275,9 +286,47 @@ func c11Relayout(src, ws string) (string, bool) {
 	return strings.Join(parts, ws), true
 }
 
+// c11Tight removes the blanks between tokens wherever the result lexes to the same tokens.
+func c11Tight(src string) (string, bool) {
+	toks, err := lexer.Lex(file.NewSource(src))
+	if err != nil {
+		return "", false
+	}
+	runes := []rune(src)
+	var parts []string
+	for i, t := range toks {
+		if t.Kind == lexer.EOF {
+			break
+		}
+		end := len(runes)
+		if i+1 < len(toks) && toks[i+1].Kind != lexer.EOF {
+			end = toks[i+1].Column
+		}
+		parts = append(parts, strings.TrimSpace(string(runes[t.Column:end])))
+	}
+	out := ""
+	for i, p := range parts {
+		if i > 0 {
+			// keep a blank only where gluing changes the token stream
+			cand := out + p
+			a, e1 := lexer.Lex(file.NewSource(cand))
+			b, e2 := lexer.Lex(file.NewSource(out + " " + p))
+			same := e1 == nil && e2 == nil && len(a) == len(b)
+			for k := 0; same && k < len(a); k++ {
+				same = a[k].Kind == b[k].Kind && a[k].Value == b[k].Value
+			}
+			if !same {
+				out += " "
+			}
+		}
+		out += p
+	}
+	return out, out != src
+}
+
 // ---- (ii) token sequences ----
 
-var c11Tokens = []string{"a", "1", `"s"`, "not", "-", "*", "**", "and", "==", "in", "not in", "..", "?", ":", "(", ")", ".", "?.", "[", "]", ",", "{", "}", "#", "all", "f"}
+var c11Tokens = []string{"a", "1", `"s"`, `"("`, "matches", "not", "-", "*", "**", "and", "==", "in", "not in", "..", "?", ":", "(", ")", ".", "?.", "[", "]", ",", "{", "}", "#", "all", "f"}
 
 func init() { checks["C11"] = c11 }
 
@@ -293,9 +342,9 @@ func c11(r *report.Run) {
 		g    *gen.Grammar
 		maxN int
 	}
-	passes := []pass{{c11Grammar(false), 5}, {c11Grammar(true), 7}, {c11PunctGrammar(), 4}}
+	passes := []pass{{c11Grammar(false), 5}, {c11Grammar(true), 7}, {c11PunctGrammar(), 4}, {c11CallsGrammar(), 8}}
 	if r.Tier == "thorough" {
-		passes = []pass{{c11Grammar(false), 6}, {c11Grammar(true), 8}, {c11PunctGrammar(), 5}}
+		passes = []pass{{c11Grammar(false), 6}, {c11Grammar(true), 8}, {c11PunctGrammar(), 5}, {c11CallsGrammar(), 9}}
 	}
 	for _, ps := range passes {
 		g, maxN := ps.g, ps.maxN
@@ -345,6 +394,10 @@ func c11(r *report.Run) {
 					if t, ok := c11Relayout(min, ws.ws); ok {
 						texts["min+"+ws.name] = t
 					}
+				}
+				// tight: every blank that is not needed to keep two tokens apart removed (validated by re-lexing)
+				if t, ok := c11Tight(min); ok {
+					texts["min+tight"] = t
 				}
 				for name, text := range texts {
 					got, err := realParse(text)
